@@ -1,8 +1,30 @@
-From Tramp Require Import Model.Base Model.Codec Proofs.CodecProofs Props.C17.
+From Tramp Require Import Model.Base Model.Codec Model.Driver Proofs.CodecProofs Proofs.DriverProofs Props.C17.
+From Coq Require Import Permutation.
 Check C17_chunking : forall chunks : list (list N), feed [] chunks = frames (concat chunks).
 Check C17_partition_independent : forall c1 c2 : list (list N), concat c1 = concat c2 -> feed [] c1 = feed [] c2.
 Check C17_writer : forall ms : list (list N), Forall no_nl ms -> frames (concat (map encode ms)) = (ms, []).
+Check C17_never_interleaved : forall (body : msg -> list N) (evs : list dev), (forall m, no_nl (body m)) ->
+  let s := drun body evs dinit in
+  exists p, frames (d_out s) = (map body (d_done s), p) /\
+            match d_lock s with Some (_, m, x :: rest) => p ++ x :: rest = enc body m | _ => p = [] end.
+Check C17_at_most_one_reply : forall (body : msg -> list N) (evs : list dev),
+  let s := drun body evs dinit in
+  NoDup (d_req s) -> NoDup (replies (d_done s)) /\ incl (replies (d_done s)) (d_req s).
+Check C17_exactly_one_reply_when_quiet : forall (body : msg -> list N) (evs : list dev),
+  let s := drun body evs dinit in
+  quiescent s = true -> Permutation (d_req s) (replies (d_done s)) /\ Permutation (d_emit s) (logs (d_done s)).
+Check C17_every_request_is_answered : forall (body : msg -> list N) (evs : list dev),
+  exists more, forallb (fun e => negb (is_input e)) more = true /\
+    let s := drun body (evs ++ more) dinit in
+    quiescent s = true /\ Permutation (d_req s) (replies (d_done s)) /\ Permutation (d_emit s) (logs (d_done s)) /\
+    d_req s = d_req (drun body evs dinit).
+(* the driver loop is pinned as a definition: VDispatch and VRecv are disabled while the driver holds a reply or the lock *)
+Check (eq_refl : driver_idle = fun s => match d_hold s, lock_owner s with None, Some WDriver => false | None, _ => true | Some _, _ => false end).
 Print Assumptions C17_chunking.
 Print Assumptions C17_partition_independent.
 Print Assumptions C17_writer.
 Print Assumptions C17_ids.
+Print Assumptions C17_never_interleaved.
+Print Assumptions C17_at_most_one_reply.
+Print Assumptions C17_exactly_one_reply_when_quiet.
+Print Assumptions C17_every_request_is_answered.
